@@ -238,3 +238,23 @@ Fixpoint nodup_keys (m : list (bytes * json)) : bool :=
   | (k, _) :: r => negb (existsb (fun kv => bytes_eqb (fst kv) k) r) && nodup_keys r
   end.
 
+
+(** * printing a tree as one token (the harness prints the library's JSON the same way) *)
+Fixpoint jprint (fuel : nat) (j : json) : bytes :=
+  match fuel with
+  | O => s2b "?"
+  | S f =>
+      match j with
+      | JNull => s2b "z" | JTrue => s2b "t" | JFalse => s2b "f"
+      | JNum z => x6e :: dec_of_Z z
+      | JStr s => x73 :: hex_of s
+      | JArr l => x5b :: (fix go (l : list json) : bytes :=
+                            match l with [] => [] | [a] => jprint f a | a :: r => jprint f a ++ x2c :: go r end) l ++ [x5d]
+      | JObj m => x7b :: (fix go (m : list (bytes * json)) : bytes :=
+                            match m with
+                            | [] => []
+                            | [(k, v)] => hex_of k ++ x3a :: jprint f v
+                            | (k, v) :: r => hex_of k ++ x3a :: jprint f v ++ x2c :: go r
+                            end) m ++ [x7d]
+      end
+  end.
